@@ -8,7 +8,15 @@ Monitors (all on executions of the real code):
   * tolerance monitor on RegulatoryTCell.evaluate (generated rule sets / records, virtual clock) and, end to
     end, a spy on the instance's TCell.inspect so the response before and after tolerance can be compared;
   * end-to-end histories through ImmuneSystem (observations -> display -> thymus -> T cell -> Treg -> memory)
-    with the self-tolerance obligation after every accepted training.
+    with the self-tolerance obligation after every accepted training. The "current behaviour" the oracle judges is
+    recomputed for every inspection by a display built for that one call from the harness' own copy of the sliding
+    window (never read back from the display under test), so fingerprints that go stale inside the system (window
+    rollover, clear + refill) show up as in-baseline threats;
+  * reported-action obligation on EVERY response ImmuneSystem.inspect returns, whichever path produced it (watcher,
+    remembered threat, no fingerprint): at most one step below the response table's action for the reported level,
+    CRITICAL keeps SHUTDOWN -- this is what sees tolerance applied a second time to a remembered (already lowered)
+    response over repeated sightings on one long-lived system;
+  * tolerance series: several evaluations on one long-lived RegulatoryTCell / record, equal-but-distinct responses.
 Only the directions the statement gives are asserted: escalation => two signals; in-baseline => no threat;
 desensitised => silent; tolerance lowers by <= 1 step and never touches CRITICAL; trained window => no threat.
 """
@@ -21,12 +29,16 @@ from rv import core, vclock
 PID = "C17"
 LEVEL = "exploration"
 TECHNIQUE = ("runtime monitoring: two-signal reference model replayed against TCell / ImmuneSystem histories, "
-             "tolerance-step monitor on RegulatoryTCell.evaluate and on a TCell.inspect spy inside ImmuneSystem.inspect, "
+             "tolerance-step monitor on RegulatoryTCell.evaluate (series on one instance) and on a TCell.inspect spy inside "
+             "ImmuneSystem.inspect, reported-action monitor on every ImmuneSystem.inspect result (incl. responses answered from memory), "
+             "current fingerprint recomputed per inspection by a throw-away display fed the harness' own copy of the window, "
              "self-tolerance oracle after every accepted training")
 RULE = ("cases = sweep of the single-inspection table (7 baseline comparisons x flag x prior streak x desensitised), sweep of tiny "
         "windows x extreme / non-finite observation values, then seeded "
         "random T-cell histories (<=15 ops, fingerprints at / one ulp inside / one ulp outside every bound), tolerance cases "
-        "(rule sets x records x responses) and end-to-end ImmuneSystem histories; non-trivial = the case reached SUSPICIOUS or "
+        "(rule sets x records x response series on one instance) and end-to-end ImmuneSystem histories (templates: incident, anergy, "
+        "random, rollover = window fills and rolls over while off-baseline then a whole window back inside, recurrence = one threat "
+        "sighted repeatedly while a tolerance rule allowed for CONFIRMED keeps matching); non-trivial = the case reached SUSPICIOUS or "
         "higher (or, for tolerance cases, a rule or the stability shortcut fired); distinct = (kind, signal 1, signal-2 sources, "
         "violation-count class, desensitised, reported level, tolerance outcome)")
 ASSUMPTIONS = [
@@ -43,6 +55,11 @@ ASSUMPTIONS = [
     "a window is 'accepted by training' iff train_agent returns POSITIVE (non-finite observations are generated before training "
     "only; a window on which train_agent raises or returns another result is counted, not judged)",
     "directly constructed fingerprints are finite; rule conditions do not raise or mutate their arguments",
+    "current behaviour (end to end) = the fingerprint of the last window_size observations recorded since the last clear() together "
+    "with all canary results since the last clear(), computed by a fresh MHCDisplay from the harness' own copy of that window",
+    "the recommended action of a reported response is the response table's action for its level (NONE ignore, SUSPICIOUS monitor, "
+    "CONFIRMED isolate, CRITICAL shutdown); a response answered from memory may carry the one-step-lowered action it was stored "
+    "with, but not less, and a remembered CRITICAL keeps SHUTDOWN (signatures preloaded by the harness carry the table action)",
 ]
 
 _SAMPLED = set()
@@ -548,16 +565,10 @@ def check_reported_action(ctx, r, tcell_consulted, desc):
     return False
 
 
-def case_treg(ctx, rng):
-    from operon_ai.surveillance import treg as treg_mod
+def gen_response(ctx, rng, desc):
+    """one response to put before the tolerance filter: from a real T cell, from the response table, or CRITICAL with any action"""
     from operon_ai.surveillance.tcell import ImmuneResponse
     from operon_ai.surveillance.types import ThreatLevel, ResponseAction, Signal1, Signal2
-    hits = []
-    rules, rdesc = gen_rules(ctx, rng, hits)
-    stab = rng.choice([1, 3, 100, 100])
-    treg = treg_mod.RegulatoryTCell(rules=rules, stability_threshold=stab)
-    desc = {"kind": "treg", "rules": rdesc, "stability_threshold": stab}
-    # the response under evaluation
     source = rng.choice(["tcell", "tcell", "table", "critical_any"])
     if source == "tcell":
         spec = gen_profile_spec(rng)
@@ -570,20 +581,32 @@ def case_treg(ctx, rng):
         ops.append(("inspect", fp))
         (resp, _st), d2 = run_tcell_history(ctx, spec, rng.choice([1, 3]), 5, ops, "treg-input", want_last=True)
         desc["input_from_tcell"] = d2["ops"]
-    elif source == "table":
+        return resp
+    if source == "table":
         lvl, act = rng.choice([("none", "ignore"), ("suspicious", "monitor"), ("confirmed", "isolate"), ("critical", "shutdown")])
-        resp = ImmuneResponse(agent_id="agent", threat_level=ThreatLevel(lvl), action=ResponseAction(act),
+        return ImmuneResponse(agent_id="agent", threat_level=ThreatLevel(lvl), action=ResponseAction(act),
                               signal1=Signal1.SELF if lvl == "none" else Signal1.NON_SELF,
                               signal2=Signal2(rng.choice(["none", "canary", "repeat", "manual"])) if lvl in ("confirmed", "critical") else Signal2.NONE,
                               violations=["response_time out of bounds: 9.000 not in [0.250, 0.750]"] * (0 if lvl == "none" else rng.randint(1, 4)))
-    else:
-        resp = ImmuneResponse(agent_id="agent", threat_level=ThreatLevel.CRITICAL,
-                              action=ResponseAction(rng.choice(["shutdown", "shutdown", "isolate", "monitor", "ignore", "alert"])),
-                              signal1=Signal1.NON_SELF, signal2=Signal2(rng.choice(["canary", "repeat", "manual", "cross"])),
-                              violations=["vocabulary_hash unknown: 0123456789ab"] * rng.randint(1, 4))
-    before = (resp.threat_level.value, resp.action.value)
-    desc["response"] = {"level": before[0], "action": before[1], "signal2": resp.signal2.value, "violations": list(resp.violations)}
+    return ImmuneResponse(agent_id="agent", threat_level=ThreatLevel.CRITICAL,
+                          action=ResponseAction(rng.choice(["shutdown", "shutdown", "isolate", "monitor", "ignore", "alert"])),
+                          signal1=Signal1.NON_SELF, signal2=Signal2(rng.choice(["canary", "repeat", "manual", "cross"])),
+                          violations=["vocabulary_hash unknown: 0123456789ab"] * rng.randint(1, 4))
+
+
+def case_treg(ctx, rng):
+    """one long-lived filter + record; one evaluation (most cases) or a short series of evaluations on the same instance with the
+    record changing in between and equal-but-distinct responses evaluated again"""
+    import dataclasses
+    from operon_ai.surveillance import treg as treg_mod
+    hits = []
+    rules, rdesc = gen_rules(ctx, rng, hits)
+    stab = rng.choice([1, 3, 100, 100])
+    treg = treg_mod.RegulatoryTCell(rules=rules, stability_threshold=stab)
+    top = {"kind": "treg", "rules": rdesc, "stability_threshold": stab, "series": []}
+    nresp = rng.choice([1, 1, 1, 2, 3, 5])
     clock = vclock.VClock(base=1.8e9)
+    prev = None
     with vclock.patched(clock, treg_mod):
         rec = treg.register_agent("agent")
         clean = rng.choice([0, 0, stab - 1, stab, stab + 7])
@@ -594,25 +617,48 @@ def case_treg(ctx, rng):
             clock.advance(rng.choice([0, 1, 3599, 3600, 3601, 86400]))
         if rng.random() < 0.4:
             rec.add_tolerated_violation(rng.choice(["response_time", "vocabulary_hash", "confidence", "zzz"]))
-        desc["record"] = {"clean_inspections": rec.clean_inspections, "recent_update": rec.recent_update,
-                          "tolerated": sorted(rec.tolerated_violations)}
-        res = treg.evaluate(resp, rec)
-    ctx.count("treg_evaluations")
-    desc["result"] = {"suppressed": res.suppressed, "original": res.original_action.value, "modified": res.modified_action.value,
-                      "reason": res.suppression_reason}
-    if (resp.threat_level.value, resp.action.value) != before:
-        ctx.violation("treg-mutated-response", "evaluate() changed the response object from %s to %s/%s" % (
-            before, resp.threat_level.value, resp.action.value), desc)
-    check_tolerance(ctx, "treg", before, res.modified_action.value, res.suppressed, desc)
-    if res.suppressed:
-        ctx.count("treg_suppressed")
-    if hits:
-        ctx.count("treg_rule_hits")
-    if res.suppressed or hits or before[0] == "critical":
-        ctx.nontrivial(("treg", before, res.suppressed, res.modified_action.value,
-                        "stable" if res.suppression_reason == "stable_agent" else (res.suppression_reason or "").split("-")[0],
-                        len(rules)))
-        sample_once(ctx, {"kind": "treg", "response": before, "result": desc["result"], "rules": rdesc})
+        for step in range(nresp):
+            desc = dict(top, step=step)
+            if prev is not None and rng.random() < 0.35:
+                resp = dataclasses.replace(prev, violations=list(prev.violations))  # equal, distinct
+                desc["response_source"] = "copy of the previous response"
+                ctx.count("treg_equal_distinct_responses")
+            else:
+                resp = gen_response(ctx, rng, desc)
+            prev = resp
+            del hits[:]
+            before = (resp.threat_level.value, resp.action.value)
+            desc["response"] = {"level": before[0], "action": before[1], "signal2": resp.signal2.value, "violations": list(resp.violations)}
+            desc["record"] = {"clean_inspections": rec.clean_inspections, "recent_update": rec.recent_update,
+                              "tolerated": sorted(rec.tolerated_violations)}
+            res = treg.evaluate(resp, rec)
+            ctx.count("treg_evaluations")
+            if step:
+                ctx.count("treg_evaluations_on_used_instance")
+            desc["result"] = {"suppressed": res.suppressed, "original": res.original_action.value, "modified": res.modified_action.value,
+                              "reason": res.suppression_reason}
+            top["series"].append({"response": desc["response"], "record": desc["record"], "result": desc["result"]})
+            if (resp.threat_level.value, resp.action.value) != before:
+                ctx.violation("treg-mutated-response", "evaluate() changed the response object from %s to %s/%s" % (
+                    before, resp.threat_level.value, resp.action.value), desc)
+            check_tolerance(ctx, "treg", before, res.modified_action.value, res.suppressed, desc)
+            if res.suppressed:
+                ctx.count("treg_suppressed")
+            if hits:
+                ctx.count("treg_rule_hits")
+            if res.suppressed or hits or before[0] == "critical":
+                ctx.nontrivial(("treg", before, res.suppressed, res.modified_action.value,
+                                "stable" if res.suppression_reason == "stable_agent" else (res.suppression_reason or "").split("-")[0],
+                                len(rules)))
+                sample_once(ctx, {"kind": "treg", "response": before, "result": desc["result"], "rules": rdesc})
+            # the record moves on the way ImmuneSystem.inspect moves it, and time passes
+            r = rng.random()
+            if r < 0.6:
+                rec.record_inspection(clean=before[0] == "none")
+            if r > 0.8:
+                clock.advance(rng.choice([1, 3599, 3601]))
+            if 0.5 < r < 0.6:
+                rec.mark_updated()
 
 
 # ------------------------------------------------------------------ end-to-end histories
@@ -1095,7 +1141,10 @@ def plan(tier):
                         "treg_evaluations": 5000, "tolerance_critical_inputs": 1000, "tolerance_one_step_lowerings": 1000,
                         "e2e_inspections": 8000, "self_tolerance_checks": 1500, "retrainings_accepted": 100,
                         "e2e_memory_as_second_signal": 100, "e2e_inspections_with_remembered_signature": 300,
-                        "e2e_tolerance_applied": 50, "windows_rejected_by_exception": 10, "corner_windows_accepted": 100}}
+                        "e2e_tolerance_applied": 50, "windows_rejected_by_exception": 10, "corner_windows_accepted": 100,
+                        "e2e_recalled_responses": 500, "e2e_recalled_tolerated_responses": 100,
+                        "e2e_recovered_after_window_rollover": 100, "treg_evaluations_on_used_instance": 2000,
+                        "treg_equal_distinct_responses": 500}}
 
 
 def run_case(ctx, n):
